@@ -384,6 +384,219 @@ Proof. intros (_ & h2 & h3). unfold rr_typed. rewrite h2, h3. auto. Qed.
 Lemma wf_rr_typed r : wf_rr r -> rr_typed r.
 Proof. intros (_ & _ & _ & _ & [H _]). exact H. Qed.
 
+(* ---------- a zone alias is only followed for a question that does not ask for CNAME / ANY ---------- *)
+Lemma zrh_cname_qt name qt recs nsd cd c r :
+  zone_result_helper name qt recs nsd cd = Ok (ZCname c r) -> rtype_matches RT_CNAME qt = false.
+Proof.
+  unfold zone_result_helper. destruct (_ && _ && _); [discriminate|].
+  destruct (rtype_matches RT_CNAME qt); [|reflexivity]. cbn [negb].
+  destruct (qt =? QT_Wildcard); [discriminate|]. destruct (existsb _ _); discriminate.
+Qed.
+
+Lemma node_resolve_cname_qt name qt : forall rp nd ia c r,
+  node_resolve name qt rp nd ia = Ok (ZCname c r) -> rtype_matches RT_CNAME qt = false.
+Proof.
+  induction rp as [|l rest IH]; intros nd ia c r; cbn [node_resolve].
+  - apply zrh_cname_qt.
+  - destruct (alookup leqb l (n_children nd)); [apply IH|].
+    destruct (n_wild nd).
+    + destruct (from_labels _); [apply zrh_cname_qt|discriminate].
+    + destruct (alookup N.eqb RT_NS (n_this nd)) as [ns|]; [|discriminate]. destruct (_ || _); discriminate.
+Qed.
+
+Lemma zones_resolve_cname_qt zs name qt z c r :
+  zones_resolve zs name qt = Some (z, Ok (ZCname c r)) -> rtype_matches RT_CNAME qt = false.
+Proof.
+  unfold zones_resolve. destruct (zones_get zs name) as [z0|]; [|discriminate].
+  unfold zone_resolve. destruct (relative_rp z0 name) as [rp|]; cbn [option_map]; [|discriminate].
+  intro H. inversion H. eapply node_resolve_cname_qt. eassumption.
+Qed.
+
+Lemma cname_qt_not_any qt : rtype_matches RT_CNAME qt = false -> qt <> QT_Wildcard.
+Proof. intros H E. subst qt. vm_compute in H. discriminate. Qed.
+
+(* a Partial local result only arises for QTYPE * (so for every other question the records
+   "combined" with the upstream answer in resolve_recursive_notimeout are none) *)
+Lemma no_partial zs cget : forall f stack q rrs,
+  q_type q <> QT_Wildcard -> resolve_local zs cget f stack q <> Ok (LPartial rrs).
+Proof.
+  induction f as [|f IH]; intros stack q rrs Hq; [discriminate|].
+  rewrite resolve_local_eq.
+  destruct (at_recursion_limit stack); [discriminate|].
+  destruct (is_duplicate_question stack q); [discriminate|].
+  set (sub := fun name => resolve_local zs cget f (stack ++ [q]) (subq q name)).
+  assert (Hsub : forall n rrs', sub n <> Ok (LPartial rrs')) by (intros n rrs'; apply IH; exact Hq).
+  clearbody sub.
+  assert (Hcache : forall rz, cache_phase cget q sub rz <> Ok (LPartial rrs)).
+  { intro rz. unfold cache_phase. destruct (cache_part cget q sub) as [[rc fc]| | |]; try discriminate.
+    destruct (is_nil _); [discriminate|]. destruct fc; [discriminate|].
+    apply N.eqb_neq in Hq. rewrite Hq. discriminate. }
+  unfold local_step, zone_phase.
+  destruct (zones_resolve zs (q_name q) (q_type q)) as [[z r]|]; [|apply Hcache].
+  destruct r as [zr|e| |]; try discriminate.
+  destruct zr as [rrs0|c cr|ns|].
+  - destruct (zone_soa_rr z); [discriminate|]. destruct (_ && _); [discriminate|apply Hcache].
+  - unfold zcombine. specialize (Hsub c). destruct (sub c) as [[[| |]|rrs'| |]| | |]; try discriminate.
+    exfalso. eapply Hsub. reflexivity.
+  - destruct (zone_soa_rr z); [|apply Hcache]. destruct ns; discriminate.
+  - destruct (zone_soa_rr z); [discriminate|apply Hcache].
+Qed.
+
+(* what local resolution makes of a question about a name an authoritative zone owns: an answer,
+   or an alias to be followed -- never a referral, a partial answer or an error *)
+Lemma owned_local_cases zs cget f stack q :
+  owned_auth zs (q_name q) -> guards_pass stack q ->
+  (exists r, resolve_local zs cget (S f) stack q = Ok (LDone r))
+  \/ (exists rrs cq, resolve_local zs cget (S f) stack q = Ok (LCname rrs cq))
+  \/ resolve_local zs cget (S f) stack q = Panic \/ resolve_local zs cget (S f) stack q = OutOfFuel.
+Proof.
+  intros [z Ho] Hg. destruct (auth_zone_alone zs cget f stack q z Ho Hg) as [soa [Hs [r [Hr H]]]].
+  destruct r as [zr|e| |]; try contradiction; [|right; right; left; exact H].
+  destruct zr as [rrs|c cr|ns|]; try contradiction.
+  - left. eexists; exact H.
+  - rewrite H. pose proof (cname_qt_not_any _ (zones_resolve_cname_qt _ _ _ _ _ _ Hr)) as Hq.
+    pose proof (no_partial zs cget f (stack ++ [q]) (subq q c)) as Hnp. cbn [subq q_type] in Hnp.
+    unfold zcombine. destruct (resolve_local zs cget f (stack ++ [q]) (subq q c)) as [[[| |]|rrs'| |]| | |];
+      try (left; eexists; reflexivity); try (right; left; do 2 eexists; reflexivity); try (right; right; left; reflexivity);
+      try (right; right; right; reflexivity).
+    exfalso. eapply Hnp; [exact Hq|reflexivity].
+  - left. eexists; exact H.
+Qed.
+
+(* what chain_ok's "no owner twice" clause implies, in a form that can be computed *)
+Fixpoint dnodupb (l : list dname) : bool :=
+  match l with [] => true | x :: t => negb (existsb (dname_eqb x) t) && dnodupb t end.
+
+Lemma NoDup_dnodupb l : NoDup l -> dnodupb l = true.
+Proof.
+  induction 1 as [|x t Hx _ IH]; [reflexivity|]. cbn [dnodupb]. rewrite IH, andb_true_r.
+  destruct (existsb (dname_eqb x) t) eqn:E; [|reflexivity].
+  apply existsb_exists in E. destruct E as [y [Hy Hxy]]. apply dname_eqb_eq in Hxy. subst y. contradiction.
+Qed.
+
+Lemma chain_from_all_cname : forall cn a b, chain_from a cn = Some b -> Forall (fun r => rr_type r = RT_CNAME) cn.
+Proof.
+  induction cn as [|r cn IH]; intros a b H; [constructor|]. cbn [chain_from] in H.
+  destruct (dname_eqb (rr_name r) a && (rr_type r =? RT_CNAME)) eqn:E; [|discriminate].
+  apply andb_prop in E. destruct E as [_ E]. apply N.eqb_eq in E.
+  destruct (rr_data r); try discriminate. constructor; [exact E|eapply IH, H].
+Qed.
+
+Lemma chain_ok_cname_owners qname qty rrs :
+  qty <> RT_CNAME -> chain_ok qname qty rrs ->
+  dnodupb (map rr_name (filter (fun r => rr_type r =? RT_CNAME) rrs)) = true.
+Proof.
+  intros Hq (cn & fin & last & -> & Hch & Hnd & Hfin). rewrite filter_app.
+  assert (E1 : filter (fun r => rr_type r =? RT_CNAME) cn = cn).
+  { pose proof (chain_from_all_cname _ _ _ Hch) as Hall. clear -Hall.
+    induction cn as [|r cn IH]; [reflexivity|]. inversion Hall; subst. cbn [filter].
+    replace (rr_type r =? RT_CNAME) with true by (symmetry; apply N.eqb_eq; assumption). f_equal. apply IH. assumption. }
+  assert (E2 : filter (fun r => rr_type r =? RT_CNAME) fin = []).
+  { clear -Hfin Hq. induction fin as [|r fin IH]; [reflexivity|]. inversion Hfin as [|? ? [_ Ht] Hf]; subst. cbn [filter].
+    destruct (rr_type r =? RT_CNAME) eqn:E; [apply N.eqb_eq in E; congruence|]. apply IH. assumption. }
+  rewrite E1, E2, app_nil_r. apply NoDup_dnodupb, Hnd.
+Qed.
+
+(* ---------- alias chains across the local / upstream boundary (C10) ---------- *)
+
+(* chain_ok (Resolver/LocalSpec.v) without its "no owner twice" clause: CNAMEs first, each owner the
+   previous target, starting at the question name, then only records of the asked type at the
+   last target.  (With an upstream that contradicts itself the clause is false for the recursive
+   resolver: see C10_recursive_owner_twice in Properties/C10.v.) *)
+Definition chain_shape (qname : dname) (qty : N) (rrs : list rr) : Prop :=
+  exists cn fin last, rrs = cn ++ fin /\ chain_from qname cn = Some last
+    /\ Forall (fun r => rr_name r = last /\ rr_type r = qty) fin.
+
+Lemma chain_ok_shape qname qty rrs : chain_ok qname qty rrs -> chain_shape qname qty rrs.
+Proof. intros (cn & fin & last & H1 & H2 & _ & H4). exists cn, fin, last. auto. Qed.
+
+Lemma chain_from_app : forall l1 l2 a b, chain_from a l1 = Some b -> chain_from a (l1 ++ l2) = chain_from b l2.
+Proof.
+  induction l1 as [|r l1 IH]; intros l2 a b H; cbn [chain_from app] in *.
+  - inversion H; reflexivity.
+  - destruct (dname_eqb (rr_name r) a && (rr_type r =? RT_CNAME)); [|discriminate].
+    destruct (rr_data r); try discriminate. apply IH. exact H.
+Qed.
+
+Lemma chain_shape_app l1 a b qty l2 :
+  chain_from a l1 = Some b -> chain_shape b qty l2 -> chain_shape a qty (l1 ++ l2).
+Proof.
+  intros H1 (cn & fin & last & E & H2 & H3). exists (l1 ++ cn), fin, last.
+  split; [rewrite E, app_assoc; reflexivity|]. split; [|exact H3].
+  rewrite (chain_from_app _ _ _ _ H1). exact H2.
+Qed.
+
+Lemma chain_shape_nil a qty : chain_shape a qty [].
+Proof. exists [], [], a. repeat split; constructor. Qed.
+
+(* an alias result of local resolution: the records are the CNAME chain from the question name to
+   the name still to be resolved, and the remaining question differs in the name only *)
+Section LocalAlias.
+  Variable zs : zones.
+  Variable cget : dname -> N -> list rr.
+  Hypothesis Hzones : zones_answers_ok zs.
+  Hypothesis Hcache : cget_ok cget.
+
+  Lemma chain_from_single r a c : rr_name r = a -> rr_type r = RT_CNAME -> rr_data r = RD_Name c -> chain_from a [r] = Some c.
+  Proof.
+    intros Hn Ht Hd. cbn [chain_from]. rewrite Hn, Ht, Hd.
+    replace (dname_eqb a a) with true by (symmetry; apply dname_eqb_eq; reflexivity). reflexivity.
+  Qed.
+  Lemma chain_from_cons r a c l : rr_name r = a -> rr_type r = RT_CNAME -> rr_data r = RD_Name c ->
+    chain_from a (r :: l) = chain_from c l.
+  Proof.
+    intros Hn Ht Hd. cbn [chain_from]. rewrite Hn, Ht, Hd.
+    replace (dname_eqb a a) with true by (symmetry; apply dname_eqb_eq; reflexivity). reflexivity.
+  Qed.
+
+  Lemma local_alias : forall f stack q rrs cq,
+    q_type q <> QT_Wildcard ->
+    resolve_local zs cget f stack q = Ok (LCname rrs cq) ->
+    chain_from (q_name q) rrs = Some (q_name cq) /\ cq = subq q (q_name cq).
+  Proof.
+    induction f as [|f IH]; intros stack q rrs cq Hq; [discriminate|].
+    rewrite resolve_local_eq.
+    destruct (at_recursion_limit stack); [discriminate|].
+    destruct (is_duplicate_question stack q); [discriminate|].
+    set (sub := fun name => resolve_local zs cget f (stack ++ [q]) (subq q name)).
+    assert (Hsub : forall n rrs' cq', sub n = Ok (LCname rrs' cq') ->
+                     chain_from n rrs' = Some (q_name cq') /\ cq' = subq q (q_name cq')).
+    { intros n rrs' cq' E. destruct (IH (stack ++ [q]) (subq q n) rrs' cq' Hq E) as [H1 H2]. split; [exact H1|]. rewrite H2 at 1. reflexivity. }
+    clearbody sub. unfold local_step.
+    destruct (zone_phase zs q sub) as [r|rz] eqn:Ez.
+    - unfold zone_phase in Ez.
+      destruct (zones_resolve zs (q_name q) (q_type q)) as [[z [zr| | |]]|] eqn:Er; try discriminate;
+        try (inversion Ez; subst; discriminate).
+      pose proof (Hzones _ _ _ _ Er) as Hz.
+      destruct zr as [rr0|c cr|ns|].
+      + destruct (zone_soa_rr z); [inversion Ez; subst; discriminate|].
+        destruct (_ && _); [inversion Ez; subst; discriminate|discriminate].
+      + inversion Ez; subst. destruct Hz as (Hn & Ht & Hdat). unfold zcombine.
+        destruct (sub c) as [[[| |]|rr'|rr' s d|rr' cq']| | |] eqn:Es; try discriminate; intro H; inversion H; subst.
+        * split; [apply chain_from_single; assumption|reflexivity].
+        * destruct (Hsub _ _ _ Es) as [H1 H2]. split; [|exact H2]. cbn [app]. rewrite (chain_from_cons _ _ c); assumption.
+        * split; [apply chain_from_single; assumption|reflexivity].
+      + destruct (zone_soa_rr z); [|discriminate]. destruct ns; inversion Ez; subst; discriminate.
+      + destruct (zone_soa_rr z); [|discriminate]. inversion Ez; subst. discriminate.
+    - pose proof (zone_phase_continue_nil zs _ _ _ Hq Ez) as ->.
+      unfold cache_phase. destruct (cache_part cget q sub) as [[rc fc]| | |] eqn:Ec; try discriminate.
+      rewrite merge_nil_l. destruct (is_nil rc); [discriminate|].
+      destruct fc as [c|]; [|destruct (q_type q =? QT_Wildcard); discriminate].
+      intro H; inversion H; subst. cbn [subq q_name]. split; [|reflexivity].
+      unfold cache_part in Ec.
+      destruct (is_nil (cget (q_name q) (q_type q)) && negb (q_type q =? RT_CNAME)); [|discriminate].
+      pose proof (Hcache (q_name q) RT_CNAME ltac:(discriminate)) as Hcn.
+      destruct (cget (q_name q) RT_CNAME) as [|cr t]; [discriminate|].
+      inversion Hcn as [|? ? [Hn Ht] _]; subst.
+      rewrite Ht, N.eqb_refl in Ec.
+      destruct (rr_data cr) as [|c0| | | | | |] eqn:Hdat; try discriminate.
+      unfold ccombine in Ec. destruct (sub c0) as [[r'|rr'|rr' s d|rr' cq']| | |] eqn:Es; try discriminate; inversion Ec; subst.
+      + apply chain_from_single; assumption.
+      + destruct (Hsub _ _ _ Es) as [H1 _]. cbn [app]. rewrite (chain_from_cons _ _ c0); assumption.
+      + apply chain_from_single; assumption.
+  Qed.
+End LocalAlias.
+
 Section RP.
   Variable cache : Type.
   Variable cache_get : cache -> dname -> N -> list rr.
@@ -1006,6 +1219,26 @@ Section RP.
   Qed.
 
   (* ---------- the log: destinations and questions (C18, C01) ---------- *)
+
+  (* what passes the filter was decoded from octets the oracle sent: it is well formed *)
+  Lemma validated_wf (Ho : oracle_bytes_ok o) a q mc st nr st' :
+    qav a q mc st = (Val (Some nr), st') -> Forall wf_rr (result_rrs nr).
+  Proof.
+    intro E. destruct (qav_some _ _ _ _ _ _ E) as [resp [Hv [Hq _]]].
+    destruct (query_nameserver_logged _ _ _ _ _ _ _ Hq) as [new [e [_ [_ [Hl _]]]]].
+    pose proof (logged_reply_wf _ _ _ _ _ _ Ho Hl) as (_ & _ & Wan & Wau & Wad).
+    pose proof (filter_sound _ _ _ _ Hv) as Hall.
+    eapply Forall_impl; [|exact Hall]. intros r Hr.
+    assert (Hin : In r (m_answers resp) \/ In r (m_authority resp) \/ In r (m_additional resp)).
+    { destruct Hr as [Ha|[Hn|[Hg|Hs]]].
+      - left. exact (proj1 Ha).
+      - destruct Hn as [[[H|H] _] _]; auto.
+      - destruct Hg as [[H|H] _]; auto.
+      - destruct Hs as (_ & _ & _ & [l1 [l2 [E2 _]]] & _). right; left. rewrite E2. apply in_or_app. right; left; reflexivity. }
+    destruct Hin as [H|[H|H]];
+      [exact (proj1 (Forall_forall _ _) Wan r H)|exact (proj1 (Forall_forall _ _) Wau r H)|exact (proj1 (Forall_forall _ _) Wad r H)].
+  Qed.
+
   Section LogInvariant.
     Variable cache_content : cache -> rr -> Prop.
     Hypothesis CL_get : forall c n t r, In r (cache_get c n t) -> exists r', cache_content c r' /\ rr_sim r r'.
@@ -1015,7 +1248,7 @@ Section RP.
     Variable PQ : question -> Prop.       (* questions *)
     Variable GT : rr -> Prop.             (* records *)
     Hypothesis GT_sim : forall a b, rr_sim a b -> GT b -> GT a.
-    Hypothesis GT_wf : forall r, wf_rr r -> GT r.
+    Hypothesis GT_up : forall a q mc st nr st', qav a q mc st = (Val (Some nr), st') -> Forall GT (result_rrs nr).
     Hypothesis GT_zone : forall name qt z zr r, zones_resolve zs name qt = Some (z, Ok zr) -> In r (zresult_rrs zr) -> GT r.
     Hypothesis GT_soa : forall name qt z zr s, zones_resolve zs name qt = Some (z, zr) -> zone_soa_rr z = Some s -> GT s.
     Hypothesis PA_ip : forall rrs h t a, Forall GT rrs -> In t (rtypes_of_mode pmode) -> get_ip rrs h t = Ok (Some a) -> PA a.
@@ -1024,62 +1257,548 @@ Section RP.
       ((exists rrs, resolve_local zs (cache_get c) LOCAL_FUEL stack q = Ok (LPartial rrs))
        \/ (exists rrs s d, resolve_local zs (cache_get c) LOCAL_FUEL stack q = Ok (LDelegation rrs s d))
        \/ (exists e, resolve_local zs (cache_get c) LOCAL_FUEL stack q = Err e)) -> PQ q.
-    Hypothesis Ho : oracle_bytes_ok o.
+    Variable base : list exchange.        (* the log before the resolution *)
 
     Definition log_ok (e : exchange) : Prop :=
       PA (fst (x_addr e)) /\ snd (x_addr e) = port /\ PQ (x_question e) /\ x_rd e = false.
 
     Definition log_inv (st : rstate) : Prop :=
-      Forall log_ok (ts_rlog (snd st)) /\ (forall r, cache_content (fst st) r -> GT r).
-
-    Lemma validated_wf a q mc st nr st' :
-      qav a q mc st = (Val (Some nr), st') -> Forall wf_rr (result_rrs nr).
-    Proof.
-      intro E. destruct (qav_some _ _ _ _ _ _ E) as [resp [Hv [Hq _]]].
-      destruct (query_nameserver_logged _ _ _ _ _ _ _ Hq) as [new [e [_ [_ [Hl _]]]]].
-      pose proof (logged_reply_wf _ _ _ _ _ _ Ho Hl) as (_ & _ & Wan & Wau & Wad).
-      pose proof (filter_sound _ _ _ _ Hv) as Hall.
-      eapply Forall_impl; [|exact Hall]. intros r Hr.
-      assert (Hin : In r (m_answers resp) \/ In r (m_authority resp) \/ In r (m_additional resp)).
-      { destruct Hr as [Ha|[Hn|[Hg|Hs]]].
-        - left. exact (proj1 Ha).
-        - destruct Hn as [[[H|H] _] _]; auto.
-        - destruct Hg as [[H|H] _]; auto.
-        - destruct Hs as (_ & _ & _ & [l1 [l2 [E2 _]]] & _). right; left. rewrite E2. apply in_or_app. right; left; reflexivity. }
-      destruct Hin as [H|[H|H]];
-        [exact (proj1 (Forall_forall _ _) Wan r H)|exact (proj1 (Forall_forall _ _) Wau r H)|exact (proj1 (Forall_forall _ _) Wad r H)].
-    Qed.
+      (exists new, ts_rlog (snd st) = new ++ base /\ Forall log_ok new) /\ (forall r, cache_content (fst st) r -> GT r).
 
     Theorem rrn_log_invariant f stack q st :
       log_inv st ->
       log_inv (snd (rrn f stack q st))
-      /\ (exists new, ts_rlog (snd (snd (rrn f stack q st))) = new ++ ts_rlog (snd st))
-      /\ (forall res, fst (rrn f stack q st) = Val (ROk res) -> Forall GT (resolved_rrs res)).
+      /\ (forall res, fst (rrn f stack q st) = Val (ROk res) ->
+            Forall GT (resolved_rrs res) /\ Forall GT (opt_list (resolved_soa_rr res))).
     Proof.
       intro H0.
-      destruct (generic_invariant log_inv (fun st st' => exists new, ts_rlog (snd st') = new ++ ts_rlog (snd st))
-                  (fun _ r => GT r) (fun _ => True) (fun _ a => PA a) PQ) with (f := f) as [Hr _]; auto.
-      - intros st0. exists []. reflexivity.
-      - intros a b c [n1 E1] [n2 E2]. exists (n2 ++ n1). rewrite E2, E1, app_assoc. reflexivity.
+      destruct (generic_invariant log_inv (fun _ _ => True) (fun _ r => GT r) (fun _ => True) (fun _ a => PA a) PQ)
+        with (f := f) as [Hr _]; auto.
       - intros stack0 q0 st0 l [_ Hc] Hl.
         refine (local_from zs (cache_get (fst st0)) GT GT_zone GT_soa _ _ _ _ _ Hl).
         intros n t r Hr. destruct (CL_get _ _ _ _ Hr) as [r' [H1 H2]]. eapply GT_sim; [exact H2|]. apply Hc, H1.
       - intros stack0 q0 st0 _ Hl Hd Hc. eapply PQ_q; eassumption.
-      - intros st0 q0 resp mc nr [Hl Hc] Hv Hg. split; [|exists []; reflexivity].
+      - intros st0 q0 resp mc nr [Hl Hc] Hv Hg. split; [|exact I].
         split; [exact Hl|]. cbn [fst]. intros r Hr. destruct (CL_insert _ _ _ Hr) as [H|[r' [H1 H2]]]; [apply Hc, H|].
         eapply GT_sim; [exact H2|]. rewrite result_rrs_split in Hg. apply Forall_app in Hg. eapply Forall_forall; [exact (proj1 Hg)|exact H1].
       - intros st0 rrs h t a _ Hg Ht Hip. eapply PA_ip; eassumption.
-      - intros st0 a q0 mc r st' [Hl Hc] Ha Hq E.
+      - intros st0 a q0 mc r st' [[new0 [El0 Fl0]] Hc] Ha Hq E.
         pose proof (qav_cache (a, port) q0 mc st0) as Ecache. pose proof (qav_log (a, port) q0 mc st0) as [new [Elog Fnew]].
         rewrite E in Ecache, Elog. cbn [snd] in Ecache, Elog.
-        split; [|split; [exists new; exact Elog|split; [|auto]]].
+        split; [|split; [exact I|split; [|auto]]].
         + split.
-          * rewrite Elog. apply Forall_app. split; [|exact Hl].
+          * exists (new ++ new0). rewrite Elog, El0, app_assoc. split; [reflexivity|]. apply Forall_app. split; [|exact Fl0].
             eapply Forall_impl; [|exact Fnew]. intros x (h1 & h2 & h3). unfold log_ok. rewrite h1, h2, h3. cbn [fst snd]. auto.
           * rewrite Ecache. exact Hc.
-        + intros nr ->. eapply Forall_impl; [|exact (validated_wf _ _ _ _ _ _ E)]. exact GT_wf.
-      - specialize (Hr stack q st H0). destruct Hr as (H1 & H2 & H3).
-        split; [exact H1|]. split; [exact H2|]. intros res E. rewrite E in H3. exact (proj1 H3).
+        + intros nr ->. eapply GT_up, E.
+      - specialize (Hr stack q st H0). destruct Hr as (H1 & _ & H3).
+        split; [exact H1|]. intros res E. rewrite E in H3. exact H3.
     Qed.
   End LogInvariant.
+
+  (* C18 port_fixed: every exchange of a resolution goes to the configured port and asks without RD *)
+  Theorem rrn_port_fixed f stack q st :
+    exists new, ts_rlog (snd (snd (rrn f stack q st))) = new ++ ts_rlog (snd st)
+                /\ Forall (fun e => snd (x_addr e) = port /\ x_rd e = false) new.
+  Proof.
+    destruct (rrn_log_invariant (fun _ _ => True)) with (PA := fun _ : ip => True) (PQ := fun _ : question => True)
+      (GT := fun _ : rr => True) (base := ts_rlog (snd st)) (f := f) (stack := stack) (q := q) (st := st)
+      as [[[new [E F]] _] _]; auto.
+    - intros c n t r _. exists r. split; [exact I|apply rr_sim_refl].
+    - intros. apply Forall_forall. auto.
+    - split; [|auto]. exists []. split; [reflexivity|constructor].
+    - exists new. split; [exact E|]. eapply Forall_impl; [|exact F]. intros e (_ & h & _ & h'). auto.
+  Qed.
+
+  (* the address get_ip yields has the family of the record type asked for *)
+  Lemma get_ip_family rrs h t a : Forall rr_typed rrs -> get_ip rrs h t = Ok (Some a) ->
+    (t = RT_A -> ip_is_v4 a = true) /\ (t = RT_AAAA -> ip_is_v4 a = false).
+  Proof.
+    intros Ht. unfold get_ip. destruct (follow_cnames rrs h QT_Wildcard) as [[[fin m]|]| | |]; try discriminate.
+    destruct (get_record rrs fin t) as [r|] eqn:Er; [|discriminate].
+    unfold get_record in Er. apply find_some in Er. destruct Er as [Hin Hb]. apply andb_prop in Hb. destruct Hb as [Hty _].
+    apply N.eqb_eq in Hty. eapply Forall_forall in Ht; [|exact Hin]. unfold rr_typed in Ht.
+    revert Ht. destruct (rr_data r); intros Ht E; inversion E; subst a; cbn [ip_is_v4]; split; intro Et;
+      try reflexivity; exfalso; rewrite Et in Hty; rewrite Hty in Ht; vm_compute in Ht; discriminate.
+  Qed.
+
+  Definition zones_rrs_ok (P : rr -> Prop) : Prop :=
+    (forall name qt z zr r, zones_resolve zs name qt = Some (z, Ok zr) -> In r (zresult_rrs zr) -> P r)
+    /\ (forall name qt z zr s, zones_resolve zs name qt = Some (z, zr) -> zone_soa_rr z = Some s -> P s).
+
+  Section Family.
+    Variable cache_content : cache -> rr -> Prop.
+    Hypothesis CL_get : forall c n t r, In r (cache_get c n t) -> exists r', cache_content c r' /\ rr_sim r r'.
+    Hypothesis CL_insert : forall c rrs r, cache_content (cache_insert_all c rrs) r ->
+                                           cache_content c r \/ exists r', In r' rrs /\ rr_sim r r'.
+    Hypothesis Ho : oracle_bytes_ok o.
+    Hypothesis Hzt : zones_rrs_ok rr_typed.
+
+    (* C18 only_v4 / only_v6: every destination of a resolution has the configured family *)
+    Theorem rrn_only_family (v4 : bool) f stack q st :
+      pmode = (if v4 then OnlyV4 else OnlyV6) ->
+      (forall r, cache_content (fst st) r -> rr_typed r) ->
+      exists new, ts_rlog (snd (snd (rrn f stack q st))) = new ++ ts_rlog (snd st)
+                  /\ Forall (fun e => ip_is_v4 (fst (x_addr e)) = v4) new.
+    Proof.
+      intros Hm Hc0.
+      destruct (rrn_log_invariant cache_content CL_get CL_insert) with (PA := fun a : ip => ip_is_v4 a = v4) (PQ := fun _ : question => True)
+        (GT := rr_typed) (base := ts_rlog (snd st)) (f := f) (stack := stack) (q := q) (st := st)
+        as [[[new [E F]] _] _]; auto.
+      - exact rr_typed_sim.
+      - intros a q0 mc st0 nr st' E. eapply Forall_impl; [|exact (validated_wf Ho _ _ _ _ _ _ E)]. exact wf_rr_typed.
+      - exact (proj1 Hzt).
+      - exact (proj2 Hzt).
+      - intros rrs h t a Ht Hin Hip. destruct (get_ip_family _ _ _ _ Ht Hip) as [H4 H6].
+        rewrite Hm in Hin. destruct v4; cbn [rtypes_of_mode] in Hin; destruct Hin as [<-|[]]; auto.
+      - split; [|exact Hc0]. exists []. split; [reflexivity|constructor].
+      - exists new. split; [exact E|]. eapply Forall_impl; [|exact F]. intros e (h & _). exact h.
+    Qed.
+
+    (* with typed sources every record the resolver returns is typed, and the cache stays typed *)
+    Lemma rrn_typed f stack q st :
+      (forall r, cache_content (fst st) r -> rr_typed r) ->
+      (forall r, cache_content (fst (snd (rrn f stack q st))) r -> rr_typed r)
+      /\ (forall res, fst (rrn f stack q st) = Val (ROk res) -> Forall rr_typed (resolved_rrs res)).
+    Proof.
+      intros Hc0.
+      destruct (rrn_log_invariant cache_content CL_get CL_insert) with (PA := fun _ : ip => True) (PQ := fun _ : question => True)
+        (GT := rr_typed) (base := ts_rlog (snd st)) (f := f) (stack := stack) (q := q) (st := st)
+        as [[_ Hc] Hres]; auto.
+      - exact rr_typed_sim.
+      - intros a q0 mc st0 nr st' E. eapply Forall_impl; [|exact (validated_wf Ho _ _ _ _ _ _ E)]. exact wf_rr_typed.
+      - exact (proj1 Hzt).
+      - exact (proj2 Hzt).
+      - split; [|exact Hc0]. exists []. split; [reflexivity|constructor].
+      - split; [exact Hc|]. intros res E. exact (proj1 (Hres res E)).
+    Qed.
+
+    (* the address a hostname lookup yields has the family of the record type asked for *)
+    Lemma htry_family f stack locally h t st a st' :
+      (forall r, cache_content (fst st) r -> rr_typed r) ->
+      htry (rrn f) stack locally h t st = (Val (Some a), st') ->
+      (t = RT_A -> ip_is_v4 a = true) /\ (t = RT_AAAA -> ip_is_v4 a = false).
+    Proof.
+      intros Hc0. unfold hostname_try. destruct locally.
+      - unfold RecursiveModel.rbind, local.
+        destruct (resolve_local zs (cache_get (fst st)) LOCAL_FUEL stack (mkq h t RC_IN)) as [l|e| |] eqn:El; try discriminate.
+        destruct l as [r|rrs|rrs s d|rrs cq]; try discriminate.
+        destruct (get_ip_lift (resolved_rrs r) h t st) as [oa [E1 E2]]. rewrite E1. intro E. inversion E; subst.
+        eapply get_ip_family; [|exact E2].
+        refine (proj1 (local_from zs (cache_get (fst st')) rr_typed (proj1 Hzt) (proj2 Hzt) _ _ _ _ _ El)).
+        intros n t0 r0 Hr. destruct (CL_get _ _ _ _ Hr) as [r' [H1 H2]]. eapply rr_typed_sim; [exact H2|]. apply Hc0, H1.
+      - unfold RecursiveModel.rbind.
+        destruct (rrn_typed f stack (mkq h t RC_IN) st Hc0) as [_ Hres].
+        destruct (rrn f stack (mkq h t RC_IN) st) as [[[res|e]|w] st1]; try discriminate.
+        specialize (Hres res eq_refl).
+        destruct (get_ip_lift (resolved_rrs res) h t st1) as [oa [E1 E2]]. rewrite E1. intro E. inversion E; subst.
+        eapply get_ip_family; eassumption.
+    Qed.
+  End Family.
+
+  (* the loop of resolve_hostname_to_ip over two record types: the second is asked only when the
+     first yielded no address *)
+  Lemma hloop_two rec stack locally h t1 t2 st a st' :
+    hloop rec stack locally h [t1; t2] st = (Val (Some a), st') ->
+    htry rec stack locally h t1 st = (Val (Some a), st')
+    \/ exists st1, htry rec stack locally h t1 st = (Val None, st1) /\ htry rec stack locally h t2 st1 = (Val (Some a), st').
+  Proof.
+    cbn [hostname_loop]. unfold RecursiveModel.rbind, ret.
+    destruct (htry rec stack locally h t1 st) as [[[x|]|w] st1] eqn:E1; try discriminate.
+    - intro E. inversion E; subst. left. reflexivity.
+    - destruct (htry rec stack locally h t2 st1) as [[[y|]|w] st2] eqn:E2; try discriminate.
+      intro E. inversion E; subst. right. exists st1. split; [reflexivity|exact E2].
+  Qed.
+
+  Section Prefer.
+    Variable cache_content : cache -> rr -> Prop.
+    Hypothesis CL_get : forall c n t r, In r (cache_get c n t) -> exists r', cache_content c r' /\ rr_sim r r'.
+    Hypothesis CL_insert : forall c rrs r, cache_content (cache_insert_all c rrs) r ->
+                                           cache_content c r \/ exists r', In r' rrs /\ rr_sim r r'.
+    Hypothesis Ho : oracle_bytes_ok o.
+    Hypothesis Hzt : zones_rrs_ok rr_typed.
+
+    (* C18 prefer_family: an address of the other family is used for a host only after the question
+       for the preferred family was asked (locally, or upstream when the host is looked up
+       recursively) and yielded no address *)
+    Theorem rhi_prefer_family (v4 : bool) f stack locally h st a st' :
+      pmode = (if v4 then PreferV4 else PreferV6) ->
+      (forall r, cache_content (fst st) r -> rr_typed r) ->
+      rhi (rrn f) stack locally h st = (Val (Some a), st') ->
+      ip_is_v4 a = negb v4 ->
+      exists st1, htry (rrn f) stack locally h (if v4 then RT_A else RT_AAAA) st = (Val None, st1)
+                  /\ htry (rrn f) stack locally h (if v4 then RT_AAAA else RT_A) st1 = (Val (Some a), st').
+    Proof.
+      intros Hm Hc0 E Hfam. unfold resolve_hostname_to_ip in E.
+      assert (Hrt : rtypes_of_mode pmode = if v4 then [RT_A; RT_AAAA] else [RT_AAAA; RT_A]) by (rewrite Hm; destruct v4; reflexivity).
+      rewrite Hrt in E. clear Hrt.
+      destruct v4; apply hloop_two in E; destruct E as [E|E]; try exact E; exfalso;
+        destruct (htry_family cache_content CL_get CL_insert Ho Hzt f stack locally h _ st a st' Hc0 E) as [H4 H6].
+      - rewrite (H4 eq_refl) in Hfam. discriminate.
+      - rewrite (H6 eq_refl) in Hfam. discriminate.
+    Qed.
+  End Prefer.
+
+  (* ---------- C08 / C07 answer_provenance ---------- *)
+  Section Provenance.
+    Variable cache_content : cache -> rr -> Prop.
+    Hypothesis CL_get : forall c n t r, In r (cache_get c n t) -> exists r', cache_content c r' /\ rr_sim r r'.
+    Hypothesis CL_insert : forall c rrs r, cache_content (cache_insert_all c rrs) r ->
+                                           cache_content c r \/ exists r', In r' rrs /\ rr_sim r r'.
+    Variable c0 : cache.                  (* the cache before the resolution *)
+
+    (* local data: a record (or the SOA) of a configured zone *)
+    Definition zone_src (r : rr) : Prop :=
+      (exists name qt z zr, zones_resolve zs name qt = Some (z, Ok zr) /\ In r (zresult_rrs zr))
+      \/ (exists name qt z zr, zones_resolve zs name qt = Some (z, zr) /\ zone_soa_rr z = Some r).
+    (* a record of a message the oracle sent (a logged exchange delivered octets that decode to it)
+       which passed the header gate against the request of that exchange and which the filter
+       allows for the question of that exchange *)
+    Definition upstream_src (log : list exchange) (r : rr) : Prop :=
+      exists e resp mc, In e log /\ reply_from o e /\ exchange_message e = Some resp
+        /\ response_matches_request (make_request (x_question e) (x_rd e)) resp = true
+        /\ allowed (x_question e) mc resp r.
+    Definition prov (log : list exchange) (r : rr) : Prop :=
+      exists r0, rr_sim r r0 /\ (zone_src r0 \/ cache_content c0 r0 \/ upstream_src log r0).
+
+    Lemma prov_sim log a b : rr_sim a b -> prov log b -> prov log a.
+    Proof. intros Hs [r0 [H1 H2]]. exists r0. split; [eapply rr_sim_trans; eassumption|exact H2]. Qed.
+    Lemma prov_mono log new r : prov log r -> prov (new ++ log) r.
+    Proof.
+      intros [r0 [H1 [H|[H|(e & resp & mc & Hin & H)]]]]; exists r0; (split; [exact H1|]); auto.
+      right; right. exists e, resp, mc. split; [apply in_or_app; right; exact Hin|exact H].
+    Qed.
+
+    Definition prov_inv (st : rstate) : Prop := forall r, cache_content (fst st) r -> prov (ts_rlog (snd st)) r.
+
+    Theorem rrn_provenance f stack q st :
+      prov_inv st ->
+      prov_inv (snd (rrn f stack q st))
+      /\ (forall res, fst (rrn f stack q st) = Val (ROk res) ->
+            Forall (prov (ts_rlog (snd (snd (rrn f stack q st))))) (resolved_rrs res ++ opt_list (resolved_soa_rr res))).
+    Proof.
+      intro H0.
+      destruct (generic_invariant prov_inv (fun st st' => exists new, ts_rlog (snd st') = new ++ ts_rlog (snd st))
+                  (fun st r => prov (ts_rlog (snd st)) r) (fun _ => True) (fun _ _ => True) (fun _ => True))
+        with (f := f) as [Hr _]; auto.
+      - intros st0. exists []. reflexivity.
+      - intros a b c [n1 E1] [n2 E2]. exists (n2 ++ n1). rewrite E2, E1, app_assoc. reflexivity.
+      - intros st0 st' r [new E]. rewrite E. apply prov_mono.
+      - intros stack0 q0 st0 l Hc Hl.
+        refine (local_from zs (cache_get (fst st0)) (prov (ts_rlog (snd st0))) _ _ _ _ _ _ _ Hl).
+        + intros name qt z zr r Hz Hin. exists r. split; [apply rr_sim_refl|]. left. left. exists name, qt, z, zr. auto.
+        + intros name qt z zr s Hz Hs. exists s. split; [apply rr_sim_refl|]. left. right. exists name, qt, z, zr. auto.
+        + intros n t r Hr. destruct (CL_get _ _ _ _ Hr) as [r' [H1 H2]]. eapply prov_sim; [exact H2|]. apply Hc, H1.
+      - intros st0 q0 resp mc nr Hc Hv Hg. split; [|exists []; reflexivity].
+        intros r Hr. cbn [fst snd] in *. destruct (CL_insert _ _ _ Hr) as [H|[r' [H1 H2]]]; [apply Hc, H|].
+        eapply prov_sim; [exact H2|]. rewrite result_rrs_split in Hg. apply Forall_app in Hg. eapply Forall_forall; [exact (proj1 Hg)|exact H1].
+      - intros st0 a q0 mc r st' Hc _ _ E.
+        pose proof (qav_cache (a, port) q0 mc st0) as Ecache. pose proof (qav_log (a, port) q0 mc st0) as [new [Elog _]].
+        rewrite E in Ecache, Elog. cbn [snd] in Ecache, Elog.
+        split; [|split; [exists new; exact Elog|split; [|auto]]].
+        + intros r0 Hr0. rewrite Ecache in Hr0. rewrite Elog. apply prov_mono, Hc, Hr0.
+        + intros nr ->. destruct (qav_some _ _ _ _ _ _ E) as [resp [Hv [Hq _]]].
+          destruct (query_nameserver_logged _ _ _ _ _ _ _ Hq) as [new' [e [El [Hin [(h1 & h2 & h3 & h4 & h5) [Hm _]]]]]].
+          eapply Forall_impl; [|exact (filter_sound _ _ _ _ Hv)]. intros r0 Hall.
+          exists r0. split; [apply rr_sim_refl|]. right; right. exists e, resp, mc.
+          split; [rewrite El; apply in_or_app; left; exact Hin|]. split; [exact h5|]. split; [exact h4|].
+          rewrite h2, h3. split; [exact Hm|exact Hall].
+      - specialize (Hr stack q st H0). destruct Hr as (H1 & _ & H3).
+        split; [exact H1|]. intros res E. rewrite E in H3. apply Forall_app. exact H3.
+    Qed.
+  End Provenance.
+
+  (* ---------- C01, network part ---------- *)
+
+  (* done_means_no_upstream: a question local data answers is answered without touching the
+     cache, the clock or the log *)
+  Theorem rrn_done_no_upstream f stack q st r :
+    at_recursion_limit stack = false -> is_duplicate_question stack q = false ->
+    resolve_local zs (cache_get (fst st)) LOCAL_FUEL stack q = Ok (LDone r) ->
+    rrn (S f) stack q st = (Val (ROk r), st).
+  Proof.
+    intros H1 H2 Hl. rewrite rrn_S. unfold recursive_body. rewrite H1, H2.
+    unfold RecursiveModel.rbind, local. rewrite Hl. reflexivity.
+  Qed.
+
+  (* log_names_not_owned: no question sent upstream is about a name an authoritative zone owns *)
+  Theorem rrn_log_names_not_owned f stack q st :
+    exists new, ts_rlog (snd (snd (rrn f stack q st))) = new ++ ts_rlog (snd st)
+                /\ Forall (fun e => ~ owned_auth zs (q_name (x_question e))) new.
+  Proof.
+    destruct (rrn_log_invariant (fun _ _ => True)) with (PA := fun _ : ip => True) (PQ := fun q : question => ~ owned_auth zs (q_name q))
+      (GT := fun _ : rr => True) (base := ts_rlog (snd st)) (f := f) (stack := stack) (q := q) (st := st)
+      as [[[new [E F]] _] _]; auto.
+    - intros c n t r _. exists r. split; [exact I|apply rr_sim_refl].
+    - intros. apply Forall_forall. auto.
+    - intros stack0 q0 c Hl Hd Hcases Hown.
+      destruct (owned_local_cases zs (cache_get c) (N.to_nat (RECURSION_LIMIT + 1)) stack0 q0 Hown (conj Hl Hd)) as [[r H]|[[rrs [cq H]]|[H|H]]];
+        change (S (N.to_nat (RECURSION_LIMIT + 1))) with LOCAL_FUEL in H;
+        destruct Hcases as [[x Hx]|[[x [y [z Hx]]]|[x Hx]]]; rewrite H in Hx; discriminate.
+    - split; [|auto]. exists []. split; [reflexivity|constructor].
+    - exists new. split; [exact E|]. eapply Forall_impl; [|exact F]. intros e (_ & _ & h & _). exact h.
+  Qed.
+
+  (* nxdomain_only_from_auth_zone: the recursive resolver reports a name error only when local
+     resolution did (nothing an upstream server says becomes AuthoritativeNameError) *)
+  Lemma rcr_not_ane rec stack rrs q st s st' : rcr rec stack rrs q st <> (Val (ROk (AuthoritativeNameError s)), st').
+  Proof.
+    unfold resolve_combined_recursive, RecursiveModel.rbind, ret.
+    destruct (rec stack q st) as [[[r|e]|w] st1]; discriminate.
+  Qed.
+
+  Lemma rwnr_not_ane rec stack combined nr q st s st' :
+    rwnr rec stack combined nr q st <> (Val (inl (ROk (AuthoritativeNameError s))), st').
+  Proof.
+    unfold resolve_with_nameserver_response, RecursiveModel.rbind, insert_all, ret.
+    destruct nr as [rrs soa|rrs cname|rrs d]; [discriminate| |].
+    - destruct (resolve_combined_recursive _ _ _ _ _ _) as [[r|w] st1] eqn:E; [|discriminate].
+      intro H. inversion H; subst. eapply rcr_not_ane. exact E.
+    - unfold glue_answer. destruct (q_type q =? RT_A).
+      + destruct (negb _); discriminate.
+      + destruct (q_type q =? RT_AAAA); [|discriminate]. destruct (negb _); discriminate.
+  Qed.
+
+  Lemma cloop_not_ane : forall f stack q combined mc cands next locally st s st',
+    cloop f stack q combined mc cands next locally st <> (Val (ROk (AuthoritativeNameError s)), st').
+  Proof.
+    induction f as [|f IH]; intros stack q combined mc cands next locally st s st'; [discriminate|].
+    rewrite cloop_S. unfold candidate_step.
+    destruct (pop_last cands) as [[candidate rest]|]; [|discriminate].
+    unfold RecursiveModel.rbind at 1.
+    destruct (rhi (rrn f) stack locally candidate st) as [[oip|w] st1]; [|discriminate].
+    destruct oip as [a|].
+    - unfold RecursiveModel.rbind at 1. destruct (qav (a, port) q mc st1) as [[onr|w] st2]; [|discriminate].
+      destruct onr as [nr|]; [|discriminate].
+      unfold RecursiveModel.rbind at 1. destruct (rwnr (rrn f) stack combined nr q st2) as [[r|w] st3] eqn:Er; [|discriminate].
+      destruct r as [result|d]; [|apply IH].
+      unfold ret. intro H. inversion H; subst. eapply rwnr_not_ane. exact Er.
+    - destruct locally; [destruct (is_nil rest)|]; apply IH.
+  Qed.
+
+  Theorem rrn_nxdomain_only_local f stack q st s st' :
+    rrn f stack q st = (Val (ROk (AuthoritativeNameError s)), st') ->
+    resolve_local zs (cache_get (fst st)) LOCAL_FUEL stack q = Ok (LDone (AuthoritativeNameError s)) /\ st' = st.
+  Proof.
+    destruct f as [|f]; [discriminate|]. rewrite rrn_S. unfold recursive_body.
+    destruct (at_recursion_limit stack); [discriminate|]. destruct (is_duplicate_question stack q); [discriminate|].
+    unfold RecursiveModel.rbind at 1. unfold local at 1.
+    destruct (resolve_local zs (cache_get (fst st)) LOCAL_FUEL stack q) as [l|e| |]; try discriminate.
+    - cbv zeta. destruct l as [r|rrs|rrs so d|rrs cq].
+      + unfold ret. intro H. inversion H; subst. auto.
+      + unfold RecursiveModel.rbind. destruct (cns _ _ _) as [[c|w] st1]; [|discriminate].
+        destruct c as [d|]; [|discriminate]. intro H. exfalso. eapply cloop_not_ane. exact H.
+      + unfold RecursiveModel.rbind, ret. intro H. exfalso. eapply cloop_not_ane. exact H.
+      + intro H. exfalso. eapply rcr_not_ane. exact H.
+    - cbv zeta. unfold RecursiveModel.rbind. destruct (cns _ _ _) as [[c|w] st1]; [|discriminate].
+      destruct c as [d|]; [|discriminate]. intro H. exfalso. eapply cloop_not_ane. exact H.
+  Qed.
+
+  (* ---------- C10, network part ---------- *)
+  Section Chain.
+    Hypothesis Hzones : zones_answers_ok zs.
+    Hypothesis Hcache : forall c, cget_ok (cache_get c).
+
+    Lemma get_records_fin rrs name t : Forall (fun r => rr_name r = name /\ rr_type r = t) (get_records rrs name t).
+    Proof.
+      unfold get_records. apply Forall_forall. intros r Hr. apply filter_In in Hr. destruct Hr as [_ Hb].
+      apply andb_prop in Hb. destruct Hb as [H1 H2]. apply N.eqb_eq in H1. apply dname_eqb_eq in H2. auto.
+    Qed.
+
+    Definition chain_res (q : question) (r : rres) : Prop :=
+      match r with ROk res => chain_shape (q_name q) (q_type q) (resolved_rrs res) | RErr _ => True end.
+
+    Lemma rcr_chain rec stack rrs q0 q st r st' :
+      (forall st1 r1 st2, rec stack q st1 = (Val r1, st2) -> chain_res q r1) ->
+      chain_from (q_name q0) rrs = Some (q_name q) -> q_type q = q_type q0 ->
+      rcr rec stack rrs q st = (Val r, st') -> chain_res q0 r.
+    Proof.
+      intros Hrec Hch Hty. unfold resolve_combined_recursive, RecursiveModel.rbind, ret.
+      destruct (rec stack q st) as [[[res|e]|w] st1] eqn:E; try discriminate; intro H; inversion H; subst; [|exact I].
+      cbn [chain_res resolved_rrs]. eapply chain_shape_app; [exact Hch|]. rewrite <- Hty. exact (Hrec _ _ _ E).
+    Qed.
+
+    Lemma rwnr_chain rec stack nr q st r st' resp mc :
+      q_type q <> RT_CNAME -> q_type q <> QT_Wildcard ->
+      (forall q' st1 r1 st2, q_type q' = q_type q -> rec stack q' st1 = (Val r1, st2) -> chain_res q' r1) ->
+      validate_nameserver_response q resp mc = Ok (Some nr) ->
+      rwnr rec stack [] nr q st = (Val (inl r), st') -> chain_res q r.
+    Proof.
+      intros Hq1 Hq2 Hrec Hv. pose proof (filter_chain_ok _ _ _ _ Hv) as Hch.
+      unfold resolve_with_nameserver_response. destruct nr as [rrs soa|rrs cname|rrs d].
+      - unfold RecursiveModel.rbind, insert_all, ret. intro H. inversion H; subst. cbn [chain_res resolved_rrs].
+        rewrite merge_nil_l. destruct soa as [s|].
+        + subst rrs. apply chain_shape_nil.
+        + destruct Hch as (cn & fin & last & -> & _ & Hvc). apply chain_ok_shape. eapply vchain_chain_ok; eassumption.
+      - destruct Hch as [_ Hvc]. unfold RecursiveModel.rbind at 1 2. unfold insert_all at 1.
+        destruct (resolve_combined_recursive _ _ _ _ _ _) as [[r1|w] st1] eqn:E; [|discriminate].
+        unfold ret. intro H. inversion H; subst. rewrite merge_nil_l in E.
+        eapply rcr_chain; [| | |exact E].
+        + intros st2 r2 st3 E2. eapply Hrec; [|exact E2]. reflexivity.
+        + cbn [mkq q_name]. exact (proj1 Hvc).
+        + reflexivity.
+      - unfold RecursiveModel.rbind, insert_all, ret. unfold glue_answer. rewrite !merge_nil_l.
+        destruct (q_type q =? RT_A) eqn:EA.
+        + apply N.eqb_eq in EA. destruct (negb _); intro H; inversion H; subst. cbn [chain_res resolved_rrs].
+          exists [], (get_records rrs (q_name q) RT_A), (q_name q). split; [reflexivity|]. split; [reflexivity|].
+          rewrite EA. apply get_records_fin.
+        + destruct (q_type q =? RT_AAAA) eqn:E6; [|discriminate].
+          apply N.eqb_eq in E6. destruct (negb _); intro H; inversion H; subst. cbn [chain_res resolved_rrs].
+          exists [], (get_records rrs (q_name q) RT_AAAA), (q_name q). split; [reflexivity|]. split; [reflexivity|].
+          rewrite E6. apply get_records_fin.
+    Qed.
+
+    Theorem rrn_chain_shape : forall f,
+      (forall stack q st r st', q_type q <> RT_CNAME -> q_type q <> QT_Wildcard ->
+         rrn f stack q st = (Val r, st') -> chain_res q r)
+      /\ (forall stack q mc cands next locally st r st', q_type q <> RT_CNAME -> q_type q <> QT_Wildcard ->
+         cloop f stack q [] mc cands next locally st = (Val r, st') -> chain_res q r).
+    Proof.
+      induction f as [|f [IHr IHl]]; [split; intros; discriminate|]. split.
+      - intros stack q st r st' Hq1 Hq2. rewrite rrn_S. unfold recursive_body.
+        destruct (at_recursion_limit stack); [unfold ret; intro H; inversion H; exact I|].
+        destruct (is_duplicate_question stack q); [unfold ret; intro H; inversion H; exact I|].
+        unfold RecursiveModel.rbind at 1. unfold local at 1.
+        destruct (resolve_local zs (cache_get (fst st)) LOCAL_FUEL stack q) as [l|e| |] eqn:El; try discriminate.
+        + cbv zeta. destruct l as [res|rrs|rrs so d|rrs cq].
+          * unfold ret. intro H. inversion H; subst. cbn [chain_res]. apply chain_ok_shape.
+            apply (local_chain_ok zs (cache_get (fst st')) Hzones (Hcache _) _ _ _ _ Hq1 Hq2 El). intros [].
+          * exfalso. eapply no_partial; [exact Hq2|exact El].
+          * unfold RecursiveModel.rbind, ret. apply IHl; assumption.
+          * destruct (local_alias zs (cache_get (fst st)) Hzones (Hcache _) _ _ _ _ _ Hq2 El) as [H1 H2].
+            intro H. eapply rcr_chain; [| | |exact H].
+            -- intros st1 r1 st2 E1. eapply IHr; [| |exact E1]; rewrite H2; cbn [subq q_type]; assumption.
+            -- exact H1.
+            -- rewrite H2. reflexivity.
+        + cbv zeta. unfold RecursiveModel.rbind. destruct (cns _ _ _) as [[c|w] st1]; [|discriminate].
+          destruct c as [d|]; [apply IHl; assumption|]. unfold ret. intro H. inversion H; exact I.
+      - intros stack q mc cands next locally st r st' Hq1 Hq2. rewrite cloop_S. unfold candidate_step.
+        destruct (pop_last cands) as [[candidate rest]|]; [|unfold ret; intro H; inversion H; exact I].
+        unfold RecursiveModel.rbind at 1.
+        destruct (rhi (rrn f) stack locally candidate st) as [[oip|w] st1]; [|discriminate].
+        destruct oip as [a|].
+        + unfold RecursiveModel.rbind at 1. destruct (qav (a, port) q mc st1) as [[onr|w] st2] eqn:Eq; [|discriminate].
+          destruct onr as [nr|]; [|unfold ret; intro H; inversion H; exact I].
+          destruct (qav_some _ _ _ _ _ _ Eq) as [resp [Hv _]].
+          unfold RecursiveModel.rbind at 1. destruct (rwnr (rrn f) stack [] nr q st2) as [[r0|w] st3] eqn:Er; [|discriminate].
+          destruct r0 as [result|d]; [|apply IHl; assumption].
+          unfold ret. intro H. inversion H; subst.
+          eapply rwnr_chain; [exact Hq1|exact Hq2| |exact Hv|exact Er].
+          intros q' st4 r1 st5 Hty E. eapply IHr; [| |exact E]; rewrite Hty; assumption.
+        + destruct locally; [destruct (is_nil rest)|]; apply IHl; assumption.
+    Qed.
+  End Chain.
+
+  (* ---------- C07 referral_progress ----------
+     the only way the candidate loop changes the delegation in use: a validated referral, which is
+     strictly deeper than the delegation in use (its match count exceeds the current one), encloses
+     the question name (so the count never exceeds the number of labels of the question name) and
+     names at least one host; the loop then continues with exactly that delegation *)
+  Theorem referral_progress rec loop stack q combined mc cands next locally st candidate rest a st1 nr st2 d st3 :
+    pop_last cands = Some (candidate, rest) ->
+    rhi rec stack locally candidate st = (Val (Some a), st1) ->
+    qav (a, port) q mc st1 = (Val (Some nr), st2) ->
+    rwnr rec stack combined nr q st2 = (Val (inr d), st3) ->
+    cstep rec loop stack q combined mc cands next locally st
+    = loop (ns_match_count d) (sort_names (ns_hostnames d)) [] true st3
+    /\ mc < ns_match_count d
+    /\ is_subdomain_of (q_name q) (ns_name d) = true
+    /\ ns_match_count d <= llen (labels (q_name q))
+    /\ ns_hostnames d <> [].
+  Proof.
+    intros Ep Eh Eq Er. split.
+    - unfold candidate_step. rewrite Ep. unfold RecursiveModel.rbind. rewrite Eh, Eq, Er. reflexivity.
+    - destruct (rwnr_inr stack rec combined nr q st2 d st3 Er) as [rrs ->].
+      destruct (qav_some _ _ _ _ _ _ Eq) as [resp [Hv _]].
+      destruct (delegation_progress _ _ _ _ _ Hv) as [Hlt [Hsub [pre Hanc]]].
+      split; [exact Hlt|]. split; [exact Hsub|]. split.
+      + unfold ns_match_count, llen. rewrite Hanc, app_length. lia.
+      + eapply delegation_hostnames_nonempty. exact Hv.
+  Qed.
+
+  (* when no referral is involved the delegation in use stays the same *)
+  Theorem no_referral_same_delegation rec loop stack q combined mc cands next locally st candidate rest st1 :
+    pop_last cands = Some (candidate, rest) ->
+    rhi rec stack locally candidate st = (Val None, st1) ->
+    exists cands' next' locally',
+      cstep rec loop stack q combined mc cands next locally st = loop mc cands' next' locally' st1.
+  Proof.
+    intros Ep Eh. unfold candidate_step. rewrite Ep. unfold RecursiveModel.rbind. rewrite Eh.
+    destruct locally; [destruct (is_nil rest)|]; do 3 eexists; reflexivity.
+  Qed.
+
+  (* ====================================================================== *)
+  (* 4. the same for resolve_recursive (the 60 s wrapper, empty question stack) *)
+  (* ====================================================================== *)
+  Notation rr_top := (resolve_recursive cache cache_get cache_insert_all sort_names zs o pmode port).
+
+  Lemma finish_ok (x : out rres * rstate) res st' : finish cache x = (Ok res, st') -> x = (Val (ROk res), st').
+  Proof. destruct x as [[[r|e]|[| |]] st1]; cbn [finish]; intro H; inversion H; reflexivity. Qed.
+  Lemma finish_snd (x : out rres * rstate) : snd (finish cache x) = snd x.
+  Proof. destruct x as [[[r|e]|[| |]] st1]; reflexivity. Qed.
+
+  Theorem recursive_only_validated_cached (P : cache -> Prop) :
+    (forall c q resp mc nr, P c -> validate_nameserver_response q resp mc = Ok (Some nr) -> P (cache_insert_all c (nr_rrs nr))) ->
+    forall f q st, P (fst st) -> P (fst (snd (rr_top f q st))).
+  Proof. intros HP f q st H. unfold resolve_recursive. rewrite finish_snd. apply rrn_only_validated_cached; assumption. Qed.
+
+  Theorem recursive_port_fixed f q st :
+    exists new, ts_rlog (snd (snd (rr_top f q st))) = new ++ ts_rlog (snd st)
+                /\ Forall (fun e => snd (x_addr e) = port /\ x_rd e = false) new.
+  Proof. unfold resolve_recursive. rewrite finish_snd. apply rrn_port_fixed. Qed.
+
+  Theorem recursive_log_names_not_owned f q st :
+    exists new, ts_rlog (snd (snd (rr_top f q st))) = new ++ ts_rlog (snd st)
+                /\ Forall (fun e => ~ owned_auth zs (q_name (x_question e))) new.
+  Proof. unfold resolve_recursive. rewrite finish_snd. apply rrn_log_names_not_owned. Qed.
+
+  Theorem recursive_done_no_upstream f q st r :
+    resolve_local zs (cache_get (fst st)) LOCAL_FUEL [] q = Ok (LDone r) -> rr_top (S f) q st = (Ok r, st).
+  Proof.
+    intro Hl. unfold resolve_recursive. rewrite (rrn_done_no_upstream f [] q st r); [reflexivity|reflexivity|reflexivity|exact Hl].
+  Qed.
+
+  Theorem recursive_nxdomain_only_local f q st s st' :
+    rr_top f q st = (Ok (AuthoritativeNameError s), st') ->
+    resolve_local zs (cache_get (fst st)) LOCAL_FUEL [] q = Ok (LDone (AuthoritativeNameError s)) /\ st' = st.
+  Proof. intro H. apply finish_ok in H. eapply rrn_nxdomain_only_local, H. Qed.
+
+  Theorem recursive_chain_shape :
+    zones_answers_ok zs -> (forall c, cget_ok (cache_get c)) ->
+    forall f q st res st', q_type q <> RT_CNAME -> q_type q <> QT_Wildcard ->
+      rr_top f q st = (Ok res, st') -> chain_shape (q_name q) (q_type q) (resolved_rrs res).
+  Proof.
+    intros Hz Hc f q st res st' H1 H2 H. apply finish_ok in H.
+    exact (proj1 (rrn_chain_shape Hz Hc f) [] q st (ROk res) st' H1 H2 H).
+  Qed.
+
+  Section TopWithCache.
+    Variable cache_content : cache -> rr -> Prop.
+    Hypothesis CL_get : forall c n t r, In r (cache_get c n t) -> exists r', cache_content c r' /\ rr_sim r r'.
+    Hypothesis CL_insert : forall c rrs r, cache_content (cache_insert_all c rrs) r ->
+                                           cache_content c r \/ exists r', In r' rrs /\ rr_sim r r'.
+
+    Theorem recursive_only_family (v4 : bool) :
+      oracle_bytes_ok o -> zones_rrs_ok rr_typed -> pmode = (if v4 then OnlyV4 else OnlyV6) ->
+      forall f q st, (forall r, cache_content (fst st) r -> rr_typed r) ->
+      exists new, ts_rlog (snd (snd (rr_top f q st))) = new ++ ts_rlog (snd st)
+                  /\ Forall (fun e => ip_is_v4 (fst (x_addr e)) = v4) new.
+    Proof.
+      intros Ho Hz Hm f q st Hc. unfold resolve_recursive. rewrite finish_snd.
+      eapply rrn_only_family; eassumption.
+    Qed.
+
+    Theorem recursive_provenance f q st res st' :
+      rr_top f q st = (Ok res, st') ->
+      forall r, In r (resolved_rrs res ++ opt_list (resolved_soa_rr res)) ->
+      exists r0, rr_sim r r0 /\
+        (zone_src r0 \/ cache_content (fst st) r0 \/ upstream_src (ts_rlog (snd st')) r0).
+    Proof.
+      intros H r Hr. apply finish_ok in H.
+      destruct (rrn_provenance cache_content CL_get CL_insert (fst st) f [] q st) as [_ Hres].
+      { intros x Hx. exists x. split; [apply rr_sim_refl|]. right; left. exact Hx. }
+      rewrite H in Hres. cbn [fst snd] in Hres. specialize (Hres res eq_refl).
+      eapply Forall_forall in Hres; [|exact Hr]. exact Hres.
+    Qed.
+  End TopWithCache.
 End RP.
